@@ -300,7 +300,7 @@ def check_pool(P, rep, PF, rule="PAR.pool"):
         if n.get("k") in ("CXXConstructExpr", "CXXTemporaryObjectExpr") and "std::thread" in n.get("t", "") and not n.get("copy"):
             launches.append(n)
     if len(launches) != 2:
-        rep.unknown(rule, "%d thread launches in parallel_for (2 expected: loop + remainder)" % len(launches))
+        generic_launch_conditions(P, rep, PF, launches, start_k, end_k, rule)
         return
     # variables i1 / i2: the lower/upper arguments of the launch inside the loop
     in_loop = [n for n in launches if any(a.get("k") in ("ForStmt", "WhileStmt") for a in PF.ancestors(n))]
@@ -452,6 +452,50 @@ def check_pool(P, rep, PF, rule="PAR.pool"):
     if good:
         rep.ok(rule, "launch/join structure of %s" % PF.qn, PF.loc, PF.qn,
                "ranges chain from start to end; join loop post-dominates both launches")
+
+
+def generic_launch_conditions(P, rep, PF, launches, start_k, end_k, rule):
+    """the launch structure is not the known chain: test necessary conditions of 'the ranges tile [start,end)' that
+    must be evident whatever the slicing scheme; otherwise the idiom is unknown (exit 2)"""
+    R = lambda n: norm.render(P, n)
+    inits = {n["r"]: n["c"][0] for n in PF.walk() if n.get("k") == "VarDecl" and n.get("c")}
+
+    def inline(e, depth=0):
+        """nodes of e with single-definition locals replaced by their initialisers"""
+        out = []
+        for x in PF.walk(e):
+            out.append(x)
+            if x.get("k") == "DeclRefExpr" and x["r"] in inits and depth < 6 and P.d(x["r"]).get("storage") == "local":
+                out.extend(inline(inits[x["r"]], depth + 1))
+        return out
+    found = False
+    anchored = False
+    for L in launches:
+        args = [norm.strip_casts(a) for a in L["c"]]
+        if len(args) != 3:
+            rep.unknown(rule, "thread constructor with %d arguments" % len(args))
+            return
+        for which, a in (("lower", args[1]), ("upper", args[2])):
+            nodes = inline(a)
+            fp = [x for x in nodes if x.get("t", "").replace("const ", "") in ("double", "float", "long double") or x.get("k") == "FloatingLiteral"]
+            if fp:
+                found = True
+                rep.violation(rule, "slice %s bound %s is computed in floating-point arithmetic" % (which, R(a)), PF.nloc(L), PF.qn, R(L)[:120],
+                              "that consecutive slices tile [start,end) exactly then depends on rounding, not on the structure of the code",
+                              key="%s|fp-bound|%s" % (rule, which),
+                              witness="node counts / thread counts for which (i+1)*step rounds below the next integer: the last node is never evaluated")
+        if any(x.get("k") == "DeclRefExpr" and x["r"] == end_k for x in inline(args[2])):
+            anchored = True
+    if not found and not anchored and launches:
+        found = True
+        rep.violation(rule, "no launched range has `end` as its upper bound", PF.nloc(launches[0]), PF.qn, "; ".join(R(l)[:60] for l in launches),
+                      "the last nodes of [start,end) are not covered by construction", key=rule + "|no-end-anchor",
+                      witness="node count not divisible by the thread count")
+    if not launches:
+        rep.violation(rule, "parallel_for starts no thread", PF.loc, PF.qn, "", "no node is evaluated", key=rule + "|no-launch")
+        found = True
+    if not found:
+        rep.unknown(rule, "%d thread launches in parallel_for (known shape: loop launch + remainder launch)" % len(launches))
 
 
 def index_chain_of(n):
